@@ -4776,7 +4776,11 @@ def _set_tensor_dict(  # noqa: F811
         tensor = out
         out = out_tmp
 
-    if isinstance(tensor, torch.nn.Parameter):
+    if was_buffer and isinstance(tensor, torch.Tensor):
+        # the name stays registered as a buffer whatever the class of the value (as
+        # torch's swap_tensor does): the way back must find it in _buffers again
+        _buffers[name] = tensor
+    elif isinstance(tensor, torch.nn.Parameter):
         for hook in hooks:
             output = hook(module, name, tensor)
             if output is not None:
@@ -4788,8 +4792,6 @@ def _set_tensor_dict(  # noqa: F811
                 _add_batch_dim_pre_hook(), with_kwargs=True
             )
 
-    elif was_buffer and isinstance(tensor, torch.Tensor):
-        _buffers[name] = tensor
     else:
         __dict__[name] = tensor
     return out
